@@ -15,6 +15,7 @@ package ipmi
 
 //@ func (*AES128CBC).DecodeFromBytes
 //@ props C05 C17
+//@ config a.cipher
 //@ requires [aes.cipher] !isnil(a.cipher) // object invariant established by NewAES128CBC, the only constructor
 //@ invariant 0 [aes.padscan] padStart <= i && i <= padStart+int(padBytes) && v == uint8(i-padStart)+1 &&
 //@    forall(qk, padStart, i, data[qk] == uint8(qk-padStart)+1)
@@ -113,6 +114,7 @@ package ipmi
 
 //@ func StringDecoderFunc.Decode
 //@ props C05
+//@ inline
 //@ requires [strdec.f] !isnil(f)
 //@ requires [strdec.c] 0 <= c && c <= 31
 //@ assigns nothing
@@ -225,3 +227,6 @@ package ipmi
 
 //@ func (*V2Session).DecodeFromBytes
 //@ props C05 C17
+//@ config s.IntegrityAlgorithm, s.ConfidentialityLayerType
+//@ invariant 0 [v2.padscan] padStart <= offset && offset <= len(data) && forall(qk, padStart, offset-1, data[qk] == 0xff) &&
+//@    b == ite(offset == padStart, uint8(0xff), data[offset-1])
